@@ -218,6 +218,9 @@ class KaniProp:
             log("[%s] %d instances not explored within the budget (listed in the evidence)" % (pid, len(self.not_explored)))
         if inconclusive or covers_fatal:
             return 2
+        if not any(results[i.name].status in ("ok", "failed") for i in mine):
+            print("INCONCLUSIVE: no instance ran to a verdict")
+            return 2
         return 0
 
     def _replay(self, pid, sc, inst, rel, r, logdir):
